@@ -316,7 +316,18 @@ def _pram_case(draw, tier):
             if mode == "neg_disc":
                 Sm *= draw(st.floats(1.0, 3.0))
         rows.append([Sa, Sm, draw(_lg(1e-6, 0.1))])
-    return {"group": group, "R_m": Rm, "E": E, "rows": rows}
+    # row labels: the damage parameter is a function of the row, whatever the rows are called.  "dup": labels i % m (two passes
+    # stacked with pd.concat without ignore_index, node ids, load blocks); "shuffled": a permutation of 0..n-1; "offset": 100, 101, ..
+    index = draw(st.sampled_from(["range", "dup", "dup", "shuffled", "offset"]))
+    labels = None
+    if index == "dup":
+        m = draw(st.integers(1, max(1, len(rows) - 1)))
+        labels = [i % m for i in range(len(rows))]
+    elif index == "shuffled":
+        labels = list(draw(st.permutations(range(len(rows)))))
+    elif index == "offset":
+        labels = [100 + i for i in range(len(rows))]
+    return {"group": group, "R_m": Rm, "E": E, "rows": rows, "labels": labels}
 
 
 @subcheck(PROP, "p_ram_value", strategy=_pram_case, quick=1600, thorough=60000,
@@ -328,6 +339,15 @@ def p_ram_value(case, ctx):
     rows = case["rows"]
     col = pd.DataFrame(rows, columns=["S_a", "S_m", "epsilon_a"])
     col["tag"] = np.arange(len(rows)) * 7
+    labels = case.get("labels")
+    if labels is not None:
+        col.index = pd.Index(labels)
+        dup = len(set(labels)) < len(labels)
+        ctx.label("labels_duplicate" if dup else "labels_unique_non_range")
+        if dup and any((rows[i][1] >= 0) != (rows[j][1] >= 0) for i in range(len(rows)) for j in range(i) if labels[i] == labels[j]):
+            ctx.label("duplicate_label_with_both_mean_stress_signs")
+    else:
+        ctx.label("labels_range")
     before = col.copy(deep=True)
     ap = pd.Series({"MatGroupFKM": case["group"], "R_m": case["R_m"], "E": case["E"]})
     with warnings.catch_warnings():
@@ -335,7 +355,8 @@ def p_ram_value(case, ctx):
         out = dp.P_RAM(col, ap).collective
     if not col.equals(before):
         raise Violation("P_RAM changed the collective it was given", bucket="pram:mutated_input")
-    if len(out) != len(rows) or list(out["tag"]) != list(before["tag"]) or not out[["S_a", "S_m", "epsilon_a"]].equals(before[["S_a", "S_m", "epsilon_a"]]):
+    if len(out) != len(rows) or list(out["tag"]) != list(before["tag"]) or list(out.index) != list(before.index) \
+            or not out[["S_a", "S_m", "epsilon_a"]].equals(before[["S_a", "S_m", "epsilon_a"]]):
         raise Violation("P_RAM collective lost or reordered rows/columns: %r" % out.to_dict("list"), bucket="pram:rows")
     signs = set()
     neg = False
@@ -390,7 +411,25 @@ def _table(draw, tier):
     else:
         ids = sorted(draw(st.lists(label, min_size=2, max_size=2, unique=True)))
         points = [{"id": ids[0], "scale": 1.0}, {"id": ids[1], "scale": draw(st.sampled_from([1.0, 0.5, 2.0, 1.25, 0.8]))}]
-    return {"P_Z": PZ, "P_D": PD, "d_1": d1, "d_2": d2, "rows": rows, "regime": regime, "points": points}
+    # a second listing of the same hystereses (see the metamorphic clause in run)
+    n = len(rows)
+    kind = draw(st.sampled_from(["none", "second_pass_first", "interleaved", "sorted_by_P", "random"]))
+    if kind == "second_pass_first":
+        order = list(range(n1, n)) + list(range(n1))
+    elif kind == "interleaved":
+        a, b, order = list(range(n1)), list(range(n1, n)), []
+        while a or b:
+            if b:
+                order.append(b.pop(0))
+            if a:
+                order.append(a.pop(0))
+    elif kind == "sorted_by_P":
+        order = sorted(range(n), key=lambda i: (-rows[i][0], i))
+    elif kind == "random":
+        order = list(draw(st.permutations(range(n))))
+    else:
+        order = None
+    return {"P_Z": PZ, "P_D": PD, "d_1": d1, "d_2": d2, "rows": rows, "regime": regime, "points": points, "order": order, "order_kind": kind}
 
 
 def _literal(case, scale=1.0):
@@ -426,14 +465,31 @@ def _points(case):
           doc="DamageCalculatorPRAM lifetime (traversals, cycles) == literal loop: pass 1 once, pass 2 repeated until the sum reaches 1, "
               "last pass linear, half hystereses weigh 0.5; early failure = hystereses completed with sum < 1; infinite life iff max P of pass 2 <= P_D; "
               "table without index, or with a (hysteresis_index, assessment_point_index) MultiIndex whose point labels are arbitrary integers "
-              "(one or two points, each compared with its own literal accumulation)")
+              "(one or two points, each compared with its own literal accumulation); the same hystereses listed in another row order "
+              "(second pass first, interleaved, sorted by P, random) give the same lifetime")
 def lifetime_accumulation(case, ctx):
+    ctx.label(case["regime"])
+    lits = _run_table(case, ctx)
+    # metamorphic: the two passes are identified by run_index, not by the position of the rows.  A table that lists the same hystereses
+    # in another order (second pass first, passes interleaved, sorted by severity) has the same D1, D2 and therefore the same lifetime.
+    # (Failure within the first two passes is counted hysteresis by hysteresis in table order, so it is not permuted.)
+    order = case.get("order")
+    if order and all(lit["early"] is None for lit in lits):
+        ctx.label("reordered:" + case.get("order_kind", "given"))
+        run = [case["rows"][i][2] for i in order]
+        if any(a == 2 and b == 1 for a, b in zip(run[:-1], run[1:])):
+            ctx.label("pass_2_row_before_pass_1_row")
+            ctx.nontrivial()
+        _run_table(dict(case, rows=[case["rows"][i] for i in order]), ctx, reordered=True)
+
+
+def _run_table(case, ctx, reordered=False):
     dp, dc, pc = _imports()
     pts = _points(case)
     lits = [_literal(case, sc) for _, sc in pts]
     rows = case["rows"]
-    ctx.label(case["regime"])
-    ctx.label("no_index" if pts[0][0] is None else "%d_point_labels_%s" % (len(pts), "0..n-1" if [q[0] for q in pts] == list(range(len(pts))) else "other"))
+    if not reordered:
+        ctx.label("no_index" if pts[0][0] is None else "%d_point_labels_%s" % (len(pts), "0..n-1" if [q[0] for q in pts] == list(range(len(pts))) else "other"))
     # decision stability of the 'sum reaches one' test
     for lit in lits:
         for s in lit["sums"]:
@@ -458,9 +514,17 @@ def lifetime_accumulation(case, ctx):
         raise Violation("%d assessment point(s) but results of length %d/%d/%d/%d" % (npt, len(seqs), len(cycs), len(infs), len(pmaxs)), bucket="life:result_shape")
     closed = [r[1] for r in rows]
     mixed = all(any(c for c, r in zip(closed, [x[2] for x in rows]) if r == k) and any(not c for c, r in zip(closed, [x[2] for x in rows]) if r == k) for k in (1, 2))
-    ctx.label("mixed_closed_half" if mixed else "not_mixed")
+    if not reordered:
+        ctx.label("mixed_closed_half" if mixed else "not_mixed")
     for j, ((label, scale), lit) in enumerate(zip(pts, lits)):
-        _check_point(case, ctx, lit, label, mixed, float(seqs[j]), float(cycs[j]), bool(infs[j]), float(pmaxs[j]), dall[j::npt])
+        try:
+            _check_point(case, ctx, lit, label, mixed, float(seqs[j]), float(cycs[j]), bool(infs[j]), float(pmaxs[j]), dall[j::npt])
+        except Violation as v:
+            if reordered:
+                raise Violation("same hystereses listed in another row order (run_index column now %r): %s" % ([r[2] for r in rows], v.msg),
+                                bucket="life:reordered:" + v.bucket.split(":", 1)[-1])
+            raise
+    return lits
 
 
 def _check_point(case, ctx, lit, label, mixed, seq, cyc, inf_life, pmax, dcol):
@@ -577,13 +641,20 @@ def _gamma_case(draw, tier):
     PL = draw(st.sampled_from([2.5, 50, 50.0, 2.5000001]))
     s = draw(st.one_of(st.just(0.0), _lg(1e-3, 100.0)))
     lsd = draw(st.one_of(st.just(0.0), _lg(1e-4, 1.0)))
-    layout = draw(st.sampled_from(["series", "series", "mesh"]))
+    layout = draw(st.sampled_from(["series", "series", "mesh", "mesh_2col", "mesh_2col"]))
     n = draw(st.integers(1, 8))
-    vals = draw(st.lists(st.one_of(st.floats(-1000.0, 1000.0), st.integers(-500, 500).map(float)), min_size=n * (3 if layout == "mesh" else 1),
-                         max_size=n * (3 if layout == "mesh" else 1)))
+    k = n * (3 if layout.startswith("mesh") else 1)
+    vals = draw(st.lists(st.one_of(st.floats(-1000.0, 1000.0), st.integers(-500, 500).map(float)), min_size=k, max_size=k))
     if max(abs(v) for v in vals) == 0.0:
         vals[0] = 1.0
-    return {"P_A": PA, "P_L": PL, "s_L": s, "LSD_s": lsd, "layout": layout, "load": vals}
+    c = {"P_A": PA, "P_L": PL, "s_L": s, "LSD_s": lsd, "layout": layout, "load": vals}
+    if layout == "mesh_2col":
+        # a second field on the mesh (stress gradient, temperature, coordinate): "the load is given in the first column"
+        scale = draw(st.sampled_from([1e-3, 1.0, 50.0, 1e4]))
+        c["second_column"] = [scale * v for v in draw(st.lists(st.floats(-1.0, 1.0), min_size=k, max_size=k))]
+        if draw(st.booleans()):
+            c["second_column"][draw(st.integers(0, k - 1))] = -3.0 * scale * max(abs(v) for v in vals)    # surely beyond every load
+    return c
 
 
 def _beta_from_table(PA):
@@ -595,7 +666,8 @@ def _beta_from_table(PA):
 
 @subcheck(PROP, "load_safety_factors", strategy=_gamma_case, quick=1600, thorough=40000,
           doc="gamma_L normal: (L_max + alpha)/L_max, alpha = (0.7 beta - 2) s_L [P_L 2.5] or 0.7 beta s_L [P_L 50]; lognormal: max(1, 10^alpha); "
-              "blanket: 1.1 / 1.0; scaled_load_sequence == gamma_L * load")
+              "blanket: 1.1 / 1.0; scaled_load_sequence == gamma_L * load; L_max = largest |load| of a Series, a one-column mesh, or the FIRST column "
+              "of a mesh with a second field (which stays unscaled)")
 def load_safety_factors(case, ctx):
     _imports()
     vals = case["load"]
@@ -603,8 +675,12 @@ def load_safety_factors(case, ctx):
         load = pd.Series(vals, name="load")
     else:
         n = len(vals) // 3
-        load = pd.DataFrame({"S_v": vals}, index=pd.MultiIndex.from_product([range(n), range(3)], names=["load_step", "node_id"]))
-    Lmax = max(abs(v) for v in vals)
+        data = {"S_v": vals}
+        if case["layout"] == "mesh_2col":
+            data["G"] = case["second_column"]
+            ctx.label("second_column_exceeds_load" if max(abs(v) for v in case["second_column"]) > max(abs(v) for v in vals) else "second_column_small")
+        load = pd.DataFrame(data, index=pd.MultiIndex.from_product([range(n), range(3)], names=["load_step", "node_id"]))
+    Lmax = max(abs(v) for v in vals)          # the load is the first column, whatever else the mesh carries
     beta = _beta_from_table(case["P_A"])
     is25 = abs(case["P_L"] - 2.5) <= 1e-8 + 1e-5 * 2.5
     ctx.label("P_L=2.5" if is25 else "P_L=50", case["layout"], "P_A_in_table" if beta is not None else "P_A_not_in_table")
@@ -641,6 +717,11 @@ def load_safety_factors(case, ctx):
     if results["fkm_safety_blanket"][0] != wb:
         raise Violation("blanket gamma_L(P_L=%r) = %r, expected %r" % (case["P_L"], results["fkm_safety_blanket"][0], wb), bucket="gamma:blanket")
     for k, (g, scaled) in results.items():
+        if case["layout"] == "mesh_2col":
+            # scaled_by_constant: "only scales the first column ... and keeps the other columns unchanged"
+            if list(scaled.columns) != ["S_v", "G"] or scaled["G"].tolist() != [float(v) for v in case["second_column"]]:
+                raise Violation("%s.scaled_load_sequence altered the second column of the mesh" % k, bucket="gamma:second_column")
+            scaled = scaled[["S_v"]]
         got = np.asarray(scaled, dtype=float).reshape(-1)
         wantv = np.asarray(vals, dtype=float) * g
         if got.shape != wantv.shape or not np.allclose(got, wantv, rtol=1e-12, atol=0.0, equal_nan=True):
